@@ -138,6 +138,8 @@ const (
 	SubjSilent             // reads, non-field writes, silent declaration forms: never reported
 	SubjRecvT              // *r = …  : reported only when r is the pointer receiver of a method of T
 	SubjRecvN              // *rn = … / *rn++ : only when rn is the pointer receiver of a method of N
+	SubjT2                 // non-mutable field of T2 / instantiation of T2: never exempt in any generated encloser
+	SubjT2Mut              // field F of T2, @mutable exactly when T's M is
 )
 
 // Site is one candidate statement, alone on its line.
@@ -319,6 +321,22 @@ func preludeD(w *lineWriter, m Mix) {
 	w.add("\tMp map[string]int")
 	w.add("}")
 	w.add("")
+	w.add("// T2 is a second annotated type whose field names coincide with T's but whose")
+	w.add("// @mutable marking is the other way round; its constructor is NewT2.")
+	if m.Imm {
+		w.add("// @immutable")
+	}
+	if m.Ctor > 0 {
+		w.add("// @constructor NewT2")
+	}
+	w.add("type T2 struct {")
+	if m.Mut {
+		w.add("\t// @mutable")
+	}
+	w.add("\tF int")
+	w.add("\tM int")
+	w.add("}")
+	w.add("")
 	w.add("// O is a plain struct holding T.")
 	w.add("type O struct {")
 	w.add("\tIn T")
@@ -327,7 +345,7 @@ func preludeD(w *lineWriter, m Mix) {
 	w.add("")
 	w.add("func GetP() *T { return nil }")
 	w.add("")
-	w.add("func Env() (x T, p *T, r *T, o O, op *O, arr []T, tw P, tp *P, y int, rn *N) { return }")
+	w.add("func Env() (x T, p *T, r *T, o O, op *O, arr []T, tw P, tp *P, y int, rn *N, x2 T2) { return }")
 	w.add("")
 }
 
@@ -448,14 +466,14 @@ func Render(s *Spec) *Rendered {
 func (r *renderer) subst(stmt string) string {
 	r.ctr++
 	rep := strings.NewReplacer("{TL}", r.tLit, "{T}", r.tName, "{PT}", r.ptName, "{P}", r.pName, "{O}", r.oName, "{N}", r.nName,
-		"{GetP}", r.q+"GetP", "{Env}", r.q+"Env", "$v", fmt.Sprintf("v%d", r.ctr))
+		"{GetP}", r.q+"GetP", "{Env}", r.q+"Env", "{T2}", r.q+"T2", "$v", fmt.Sprintf("v%d", r.ctr))
 	return rep.Replace(stmt)
 }
 
 func (r *renderer) params(skip string) string {
 	all := []struct{ n, t string }{
 		{"x", r.tName}, {"p", r.ptName}, {"r", r.ptName}, {"o", r.oName}, {"op", "*" + r.oName},
-		{"arr", "[]" + r.tName}, {"tw", r.pName}, {"tp", "*" + r.pName}, {"y", "int"}, {"rn", "*" + r.nName},
+		{"arr", "[]" + r.tName}, {"tw", r.pName}, {"tp", "*" + r.pName}, {"y", "int"}, {"rn", "*" + r.nName}, {"x2", r.q + "T2"},
 	}
 	var parts []string
 	for _, a := range all {
@@ -485,8 +503,8 @@ func (r *renderer) block(w *lineWriter, pkgPath string, bi int, b Block) {
 		w.addf("func %s(%s) {", b.Encl.fixedName(), r.params(""))
 	case EInit:
 		w.add("func init() {")
-		w.add("\tx, p, r, o, op, arr, tw, tp, y, rn := " + r.subst("{Env}") + "()")
-		w.add("\tuse(x, p, r, o, op, arr, tw, tp, y, rn)")
+		w.add("\tx, p, r, o, op, arr, tw, tp, y, rn, x2 := " + r.subst("{Env}") + "()")
+		w.add("\tuse(x, p, r, o, op, arr, tw, tp, y, rn, x2)")
 	case EMethTPtr:
 		w.addf("func (r *T) m%d(%s) {", bi, r.params("r"))
 	case EMethTVal:
